@@ -75,29 +75,56 @@ def r_fold(ctx, chk):
     # empty chunk: zero iterations -> nothing happens (follows from the three clauses above)
 
 
-def closure_is_byte_as_char(prog, cpath):
-    b = prog.bodies.get(cpath)
-    if b is None:
-        return False, 'closure not found'
-    casts = 0
-    calls = 0
-    for bb in b.blocks:
-        if bb['cleanup']:
-            continue
-        if bb['term']['k'] == 'call':
-            calls += 1
-        for s in bb['stmts']:
-            if s['k'] == 'assign' and s['rv']['k'] == 'cast':
-                rv = s['rv']
-                if rv['kind'] == 'IntToInt' and rv['from'] == 'u8' and rv['ty'] == 'char':
-                    casts += 1
-                else:
-                    return False, 'cast %s -> %s' % (rv['from'], rv['ty'])
-            elif s['k'] == 'assign' and s['rv']['k'] == 'binop':
-                return False, 'arithmetic on the byte'
-    if calls or casts != 1:
-        return False, '%d calls, %d u8->char casts' % (calls, casts)
-    return True, 'single `u8 as char` cast'
+def bytes_as_code_points(eng, st, a):
+    """is the string `a` exactly `data.iter().map(f).collect()` with f(b) = the char whose code point
+    is b, decided on the abstract value: the iterator source is the `data` slice, the adaptors are
+    copies and one map, and the map closure applied to an arbitrary byte b returns char(b)"""
+    from .values import CharV, ClosureV, IterV
+    if not (isinstance(a, StrV) and isinstance(a.prov, tuple) and a.prov and a.prov[0] == 'collect' and len(a.prov) > 3 and isinstance(a.prov[3], IterV)):
+        return False, '8-bit text is not collected from an iterator over the chunk (%r)' % (a,)
+    it = a.prov[3]
+    if it.kind != 'coll' or it.args[0] is None:
+        return False, 'iterator source is not a collection (%r)' % (it,)
+    try:
+        src = eng.read(st, it.args[0])
+    except Exception:
+        src = None
+    if not (isinstance(src, CollV) and isinstance(src.length, NumV) and 'data' in symname(src.length.sym or 0)):
+        return False, 'the 8-bit text is not built from the `data` chunk itself (%r)' % (src,)
+    maps = [o for o in it.ops if o[0] == 'map']
+    other = [o[0] for o in it.ops if o[0] not in ('map', 'cloned')]
+    if other or len(maps) != 1:
+        return False, 'adaptor chain %s is not a single element-wise map' % [o[0] for o in it.ops]
+    s = st.fork()
+    b = eng.fresh_num(s, 'u8', 0, 255, name='byte')
+    x = b
+    mode = it.args[2]
+    if mode != 'val':
+        root = ('H', 'probe-byte')
+        s.store[root] = b
+        x = RefV((root, ()))
+    for o in it.ops:
+        if o[0] == 'cloned':
+            x = eng.read(s, x.path) if isinstance(x, RefV) else x
+        else:
+            break
+    hooks = eng.hooks
+    eng.hooks = []
+    try:
+        res = eng.call_value(s, maps[0][1], [x], 0)
+    except Exception as ex:
+        return False, 'mapping closure could not be evaluated: %s' % ex
+    finally:
+        eng.hooks = hooks
+    if not res:
+        return False, 'mapping closure has no exit'
+    for (s2, r) in res:
+        if not isinstance(r, CharV):
+            return False, 'mapping closure returns %r' % (r,)
+        n = eng.char_num(s2, r)
+        if eng.prove_cmp(s2, 'eq', n, NumV(b.sym, b.k, 'u32')) is not True:
+            return False, 'mapping closure does not return the code point equal to the byte (returns %r for byte %r)' % (r, b)
+    return True, 'every byte b is mapped to char(b)'
 
 
 def r_stream(ctx, chk, prop):
@@ -117,7 +144,7 @@ def r_stream(ctx, chk, prop):
     for (st, ret) in finals:
         evs = st.event_list()
         dec = [e for e in evs if e[0] == 'decode']
-        feeds = [e for e in evs if e[0] == 'localcall' and e[1] == PFEED and e[3] == BFEED]
+        feeds = [e for e in evs if e[0] == 'localcall' and e[1] == PFEED]
         ps = st.store.get(('H', 'PS'))
         use = ps.fields.get('use_utf8') if isinstance(ps, StructV) else None
         utf8 = eng.eval_bool(st, use) if isinstance(use, BoolV) else None
@@ -164,21 +191,15 @@ def r_stream(ctx, chk, prop):
                 probs_raw.append('%d calls of Parser::feed on the 8-bit path' % len(feeds))
             else:
                 a = feeds[0][2][1] if len(feeds[0][2]) > 1 else None
-                okp = isinstance(a, StrV) and isinstance(a.prov, tuple) and a.prov and a.prov[0] == 'collect' and tuple(a.prov[2]) == ('map',)
+                okp, whyp = bytes_as_code_points(eng, st, a)
                 if not okp:
-                    probs_raw.append('8-bit text is not data.iter().map(..).collect() (%r)' % (a,))
+                    probs_raw.append(whyp)
     chk.instance('R-STREAM', 'ByteParser::feed', 'UTF-8 branch obeys the streaming-decoder protocol', utf8_paths > 0 and not probs_utf8,
                  detail='; '.join(sorted(set(probs_utf8))) or '%d UTF-8 paths: one decode_to_string(data, last=false) on a decoder field, output fed once' % utf8_paths,
                  span=body.span, what='; '.join(sorted(set(probs_utf8))) or 'no UTF-8 path found')
-    cl = [c for c in prog.closures_of.get(BFEED, [])]
-    okc, whyc = (False, 'no mapping closure')
-    for c in cl:
-        okc, whyc = closure_is_byte_as_char(prog, c)
-        if okc:
-            break
-    chk.instance('R-STREAM', 'ByteParser::feed', '8-bit branch is an element-wise byte -> code point map', raw_paths > 0 and not probs_raw and okc,
-                 detail='; '.join(sorted(set(probs_raw))) or '%d 8-bit paths; closure: %s' % (raw_paths, whyc), span=body.span,
-                 what='; '.join(sorted(set(probs_raw)) + ([] if okc else ['mapping closure: ' + whyc])))
+    chk.instance('R-STREAM', 'ByteParser::feed', '8-bit branch is an element-wise byte -> code point map', raw_paths > 0 and not probs_raw,
+                 detail='; '.join(sorted(set(probs_raw))) or '%d 8-bit paths; the text fed is data.iter().map(f).collect() and f(b) = char(b) for an arbitrary byte b' % raw_paths, span=body.span,
+                 what='; '.join(sorted(set(probs_raw))))
     # decoder constructed only in new / select_other_charset
     ctor_sites = []
     for f, b in prog.bodies.items():
